@@ -8,6 +8,7 @@ Next == UNCHANGED x
 Bed3 == "table bed\n\"Browser Extensible Data\"\n(\n    string chrom;       \"Reference sequence chromosome or scaffold\"\n    uint   chromStart;  \"Start position in chromosome\"\n    uint   chromEnd;    \"End position in chromosome\"\n)"
 
 V02(o) == IF o.obs.result # "ok" THEN "not-ok"
+          ELSE IF "generic" \in DOMAIN o.obs /\ (o.obs.generic.kind # "bb" \/ o.obs.generic.chroms # o.obs.chroms) THEN "generic-open"
           ELSE IF o.obs.readok # 1 /\ HasZeroZero(o.items) THEN "known:F11"
           ELSE IF o.obs.readok # 1 THEN "read-error"
           ELSE IF ~ChromTableOK(o.items, o.chroms, o.obs.chroms) THEN "chromtable"
@@ -43,7 +44,7 @@ V08(o) == IF o.obs.result # "ok" THEN "not-ok"
 
 Verdict(o) == CASE Prop = "C02" -> V02(o) [] Prop = "C04" -> V04(o) [] Prop = "C06" -> V06(o) [] Prop = "C08" -> V08(o)
 \* drift: the real tiling / summary differs from the mechanism layer although the abstract predicate holds
-Drift(o) == \/ (Prop = "C08" /\ o.obs.result = "ok" /\ o.opts.zmode = "manual" /\ o.scale = 1 /\ o.obs.zooms # o.mz)
+Drift(o) == \/ (Prop = "C08" /\ o.obs.result = "ok" /\ o.opts.zmode = "manual" /\ o.scale = 1 /\ "nomech" \notin DOMAIN o /\ o.obs.zooms # o.mz)
             \/ (Prop = "C06" /\ o.obs.result = "ok" /\ o.obs.summary.int = 1 /\ o.obs.summary.bases > 0
                 /\ [f \in {"bases", "sum", "sumsq", "min", "max"} |-> o.obs.summary[f]] # [f \in {"bases", "sum", "sumsq", "min", "max"} |-> o.msum[f]])
 Post == /\ \A i \in 1..Len(Obs) : LET v == Verdict(Obs[i]) IN
